@@ -12,6 +12,7 @@ import (
 	"github.com/superfly/ltx"
 
 	"github.com/benbjohnson/litestream/internal"
+	"github.com/benbjohnson/litestream/verifhook"
 )
 
 // Compactor handles compaction and retention for LTX files.
@@ -166,6 +167,7 @@ func (c *Compactor) Compact(ctx context.Context, dstLevel int) (*ltx.FileInfo, e
 		_ = pw.CloseWithError(comp.Compact(ctx))
 	}()
 
+	verifhook.Yield("compact:before_write")
 	info, err := c.client.WriteLTXFile(ctx, dstLevel, minTXID, maxTXID, pr)
 	_ = pr.CloseWithError(err)
 	if err != nil {
